@@ -210,7 +210,13 @@ func profileFor(prop string) profile {
 	pr := profile{byz: 0.6, acts: allActs, faults: 6, leaders: []string{"round-robin", "round-robin", "round-robin", "fixed", "carousel", "reputation", "scripted"}}
 	switch prop {
 	case "C01", "C03", "C07", "C13":
-	case "C02", "C11":
+	case "C11":
+		pr.byz = 0.9
+		pr.nSwarm = true
+		// what can make a cache wrong: the same signature bytes with another message, batch, view or signer labels
+		pr.acts = []string{"aggreplay", "aggreplay", "aggreplay", "replay", "replay", "relabel", "swapids", "swapids", "wrongblock", "subquorum", "dupsigner",
+			"staleTC", "forgetc", "forgevote", "badtimeoutsig", "equivocate"}
+	case "C02":
 		pr.byz = 0.85
 		pr.nSwarm = true
 	case "C05":
@@ -257,11 +263,14 @@ func GenPlan(prop string, seed uint64) *Plan {
 	p.Ruleset = pick(g, "chainedhotstuff", "chainedhotstuff", "simplehotstuff", "fasthotstuff")
 	p.Crypto = []string{"eddsa", "ecdsa", "bls12"}[g.weighted(60, 28, 12)]
 	p.Cache = pick(g, 0, 0, 1, 2, 3, 5, 8, 16, 64, 100)
+	if prop == "C11" {
+		p.Cache = pick(g, 1, 1, 2, 3, 5, 8, 16, 64, 100) // the property is about replicas that have a cache
+	}
 	p.SyncVerify = true
 	if (prop == "C09" && g.p(0.4)) || g.p(0.04) {
 		p.SyncVerify = false // votes verified in background goroutines, released by the scheduler in a seeded order
 	}
-	if prop == "C08" && p.Ruleset != "fasthotstuff" && g.p(0.4) {
+	if (prop == "C08" || prop == "C11") && p.Ruleset != "fasthotstuff" && g.p(0.4) {
 		p.Knobs = map[string]int{"aggqc": 1}
 	}
 	p.Wire = pr.forceWire || g.p(0.6)
